@@ -1,0 +1,18 @@
+//go:build verif
+// +build verif
+
+package xpoa
+
+import "github.com/xuperchain/xupercore/kernel/consensus/base"
+
+// VerifMinerScheduling exposes the package-private slot schedule of an xpoa instance to the
+// verification harness (/verif, property C16). length is the size of the validator set. ok is
+// false if c is not an xpoa instance.
+func VerifMinerScheduling(c base.ConsensusImplInterface, timestamp int64, length int) (term, pos, blockPos int64, ok bool) {
+	x, isXpoa := c.(*xpoaConsensus)
+	if !isXpoa || x == nil || x.election == nil {
+		return 0, 0, 0, false
+	}
+	term, pos, blockPos = x.election.minerScheduling(timestamp, length)
+	return term, pos, blockPos, true
+}
